@@ -139,6 +139,19 @@ def eval_ik(P, case, out):
         snap = np.array(La, float).copy()
         s6.IK(tm((P.B @ splib.rel_pose(P.h, 0)).copy()), tm(P.B.copy()), protect=True)
     out.append(("earlier_result_overwritten", float(np.abs(np.array(La, float) - snap).max()), 0.0, None))
+    # the caller keeps ONE pair of pose objects and moves them in place between two IK calls (both plates rigidly moved, then
+    # the top plate to this pose): the second answer belongs to the poses the objects hold NOW
+    s8 = P.fresh()
+    G0 = se3.T_from([0.2, -0.1, 0.3], [-0.7, 0.4, 0.9])        # the first call already away from where the platform stands
+    tobj, bobj = tm((G0 @ P.B @ splib.rel_pose(P.h, 0)).copy()), tm((G0 @ P.B).copy())
+    with splib.quiet():
+        s8.IK(tobj, bobj, protect=True)
+        bobj.sTM((G_RIGID @ P.B).copy())
+        tobj.sTM((G_RIGID @ Tt).copy())
+        Lm, _ = s8.IK(tobj, bobj, protect=True)
+        jm = max(np.abs(np.array(s8.getBottomJoints(), float) - pg.to_space(G_RIGID @ P.B, P.bl)).max(),
+                 np.abs(np.array(s8.getTopJoints(), float) - pg.to_space(G_RIGID @ Tt, P.tl)).max())
+    out.append(("pose_objects_moved_in_place", max(float(np.abs(np.array(Lm, float).reshape(6) - want).max()), float(jm)), TOL_IK * 10, None))
     if ok and P.spin != "s0" and i in RESPIN_AT:
         # forward kinematics used BEFORE the re-spin (anything the solver builds on first use is built for the old tables),
         # then re-spun, then asked for this pose: must answer as the platform that was re-spun before its first FK
